@@ -236,7 +236,7 @@ def run_on_real(spec, mounts):
     uid = spec['uid']
     os.getuid = lambda: uid
     tty = spec['tty']
-    os.isatty = lambda fd: tty if fd == 0 else False
+    os.isatty = lambda fd: (fd in (0, 1, 2)) if tty is True else (False if not tty else fd in tty)
     if spec.get('cwd'):
         os.chdir(spec['cwd'])
     return _call_main(spec)
